@@ -409,4 +409,55 @@ example :
     ∧ update npArray U (.obj 3 [.int 5, .none]) (.dict [.int 1, .bool true] false) = .ok (.obj 3 [.none, .bool true]) := by
   refine ⟨?_, ?_, ?_⟩ <;> rfl
 
+/-! ## 3. reflection: package aliases and `get_class` (the `_MODEL_` blob itself is compared by the harness) -/
+
+/-- The alias `Name_M` of a namespace package refers to a minor version that exists and is numerically the
+greatest of that `(name, major)` — for every set of types (minors 9 vs 10, 3 vs 100 included). -/
+theorem C18_alias_is_newest_minor (tys : List TyId) (name : String) (major k : Nat)
+    (h : newestMinor tys name major = some k) :
+    ⟨name, major, k⟩ ∈ tys ∧ ∀ t ∈ tys, t.name = name → t.major = major → t.minor ≤ k := by
+  obtain ⟨hk, hall⟩ := maxMinor_spec _ k h
+  constructor
+  · obtain ⟨t, ht, rfl⟩ := List.mem_map.1 hk
+    obtain ⟨htm, hp⟩ := List.mem_filter.1 ht
+    simp only [decide_eq_true_eq] at hp
+    obtain ⟨rfl, rfl⟩ := hp
+    exact htm
+  · intro t ht hn hm
+    exact hall t.minor (List.mem_map.2 ⟨t, List.mem_filter.2 ⟨ht, by simp [hn, hm]⟩, rfl⟩)
+
+/-- Every generated type has its alias, and the alias is at least as new. -/
+theorem C18_alias_exists (tys : List TyId) (t : TyId) (ht : t ∈ tys) :
+    ∃ k, newestMinor tys t.name t.major = some k ∧ t.minor ≤ k := by
+  have hmem : t.minor ∈ (tys.filter (fun u => u.name = t.name ∧ u.major = t.major)).map (·.minor) :=
+    List.mem_map.2 ⟨t, List.mem_filter.2 ⟨ht, by simp⟩, rfl⟩
+  obtain ⟨k, hk⟩ := maxMinor_some_of_mem _ _ hmem
+  exact ⟨k, hk, (maxMinor_spec _ k hk).2 _ hmem⟩
+
+/-- Lexicographic order would pick the wrong one: among minors 0..12 the integer maximum is 12 (text: "9"),
+and 100 beats 3. -/
+example : newestMinor ((List.range 13).map (fun m => ⟨"Many", 1, m⟩) ++ [⟨"Zero", 0, 3⟩, ⟨"Zero", 0, 100⟩]) "Many" 1 = some 12
+    ∧ aliases ((List.range 13).map (fun m => ⟨"Many", 1, m⟩) ++ [⟨"Zero", 0, 3⟩, ⟨"Zero", 0, 100⟩])
+        = [⟨"Many", 1, 12⟩, ⟨"Zero", 0, 100⟩] := by
+  constructor <;> decide
+
+/-- `get_class`'s module walk finds the generated package of every namespace path, whatever the generator's set
+of reserved names is (keywords, builtins, …): if the package tree contains the stropped path and does not contain a
+module under the *unstropped* reserved name, `do_import` returns the stropped path. -/
+theorem C18_get_class_finds_stropped_package (reserved : String → Bool) (ex : List String → Bool)
+    (comps : List String)
+    (hgen : ∀ a b c, comps = a ++ c :: b → ex (a.map (strop reserved) ++ [strop reserved c]) = true)
+    (hno : ∀ a b c, comps = a ++ c :: b → reserved c = true → ex (a.map (strop reserved) ++ [c]) = false) :
+    doImport ex [] comps = some (comps.map (strop reserved)) := by
+  have := doImport_strop reserved ex comps [] (by simpa using hgen) (by simpa using hno)
+  simpa using this
+
+/-- Non-vacuity: namespace `kw.filter.if` with builtins and keywords reserved. -/
+example :
+    let reserved := fun s => s = "filter" || s = "if"
+    let tree := [["kw"], ["kw", "filter_"], ["kw", "filter_", "if_"]]
+    doImport (fun p => tree.contains p) [] ["kw", "filter", "if"] = some ["kw", "filter_", "if_"]
+    ∧ ["kw", "filter", "if"].map (strop reserved) = ["kw", "filter_", "if_"] := by
+  constructor <;> decide
+
 end NunavutVerif.PyObj
